@@ -553,6 +553,8 @@ func ruleErrUsed(w *World, r *Report, in map[*ssa.Function]bool) {
 			ok2, why := discardedOK(w, e, f, c)
 			if ok2 {
 				r.Add(Obligation{Rule: "ERRUSED", Key: key, Pos: pos, Status: Discharged, Detail: "parse error discarded, but " + why, Canary: can})
+			} else if strings.HasPrefix(why, "UNDECIDED: ") {
+				r.Add(Obligation{Rule: "ERRUSED", Key: key, Pos: pos, Status: Undecided, Detail: "parse error of caller text is dropped (" + shortInstr(c) + "); " + strings.TrimPrefix(why, "UNDECIDED: "), Canary: can})
 			} else {
 				r.Add(Obligation{Rule: "ERRUSED", Key: key, Pos: pos, Status: Violated, Detail: "parse error of caller text is dropped (" + shortInstr(c) + "): " + why, Canary: can})
 			}
@@ -614,9 +616,12 @@ func discardedOK(w *World, e *scEngine, f *ssa.Function, c *ssa.Call) (bool, str
 		}
 		ctx := &simCtx{e: e, f: f, sc: scenario{Kind: scParseFail, Param: i}}
 		if ctx.textOfSubject(c.Call.Args[0]) {
-			ok, why := e.check(f, scenario{Kind: scParseFail, Param: i}, 0)
-			if ok {
+			st, why := e.checkTwoPass(f, scenario{Kind: scParseFail, Param: i})
+			switch st {
+			case Discharged:
 				return true, "argument " + p.Name() + " always fails in a validating callee when a field is not an integer"
+			case Undecided:
+				return false, "UNDECIDED: argument " + p.Name() + " is validated in a form the analysis does not interpret: " + why
 			}
 			return false, "no validating callee rejects argument " + p.Name() + ": " + why
 		}
@@ -660,3 +665,28 @@ func ruleNoPartial(w *World, r *Report, fn string) {
 	}
 }
 
+
+// checkTwoPass: Discharged if the scenario always fails; otherwise a second
+// exploration assumes that every validation-shaped test of the subject that
+// the oracle cannot evaluate rejects it: if the scenario then always fails
+// the verdict is Undecided (validated in a form the analysis does not
+// interpret), else Violated (some path validates nothing).
+func (e *scEngine) checkTwoPass(f *ssa.Function, sc scenario) (Status, string) {
+	e.undecidedOnSubject = nil
+	ok, why := e.check(f, sc, 0)
+	if ok {
+		return Discharged, ""
+	}
+	tests := uniqStrings(e.undecidedOnSubject)
+	if len(tests) == 0 {
+		return Violated, why
+	}
+	e.assumeReject = true
+	rejects, _ := e.check(f, sc, 0)
+	e.assumeReject = false
+	e.undecidedOnSubject = nil
+	if rejects {
+		return Undecided, why + ", but only past test(s) of the argument the analysis could not evaluate (" + abbrev(strings.Join(tests, "; "), 240) + ")"
+	}
+	return Violated, why
+}
